@@ -12,7 +12,7 @@ package rewrite
 //@ use @verif/specs/stdlib.spec:stdlib
 //@ use @verif/specs/stdlib.spec:casket_api
 
-//@ unit rewrite_rules frames=on props=C19 nilchecks=on filter=`rewrite\.ComplexRule\)\.(Match|matchExt)$|rewrite\.regexpMatches$|rewrite\.NewComplexRule$`
+//@ unit rewrite_rules frames=on props=C19,C11 nilchecks=on filter=`rewrite\.ComplexRule\)\.(Match|matchExt)$|rewrite\.regexpMatches$|rewrite\.NewComplexRule$`
 //@ // The matchers of a `rewrite` block are total in the request path: whatever path Path.Matches accepted for the rule's
 //@ // base (it compares cleaned, case-folded paths, so an accepted path can be SHORTER than the base as written), cutting
 //@ // the base off before the regexp is applied stays in range; extension entries are non-empty by construction.
@@ -53,3 +53,8 @@ package rewrite
 //@   requires w != nil && r != nil && rw.Next != nil
 //@   modifies ghost:nextCalls, ghost:nextRet, URL.Path, URL.RawQuery, URL.Fragment, Request.URL
 //@   ensures [passes_on_once_returns_its_answer_sends_nothing] nextCalls == old(nextCalls) + 1 && result0 == nextRet && hw == old(hw) && bodyWrites == old(bodyWrites)
+
+//@ unit constructors_sweep props=C11 nilchecks=on nonnil_params=on filter=`rewrite\.NewSimpleRule$`
+//@ // constructors and helpers that this directive's setup calls but that live outside setup.go: the same safety sweep
+//@ // (index, slice, division, nil-map store, nil dereference, explicit panic) as for the setup code itself
+//@ use @verif/specs/stdlib.spec:stdlib
